@@ -54,8 +54,73 @@ pub struct N(#[allow(dead_code)] pub u32);
 
 pub const PERIOD: u32 = 3;
 
+// ---- remote events (profile `sys_evt`) -------------------------------------------------------
+use bevy::ecs::entity::MapEntities;
+
+#[derive(Event, Serialize, Deserialize, Clone)]
+pub struct SeOrd(pub u32);
+#[derive(Event, Serialize, Deserialize, Clone, MapEntities)]
+pub struct SeMap(pub u32, #[entities] pub Entity);
+#[derive(Event, Serialize, Deserialize, Clone)]
+pub struct SeInd(pub u32);
+#[derive(Event, Serialize, Deserialize, Clone)]
+pub struct StOrd(pub u32);
+#[derive(Event, Serialize, Deserialize, Clone)]
+pub struct SeUnrel(pub u32);
+#[derive(Event, Serialize, Deserialize, Clone)]
+pub struct CeOrd(pub u32);
+#[derive(Event, Serialize, Deserialize, Clone, MapEntities)]
+pub struct CeMap(pub u32, #[entities] pub Entity);
+#[derive(Event, Serialize, Deserialize, Clone)]
+pub struct CtOrd(pub u32);
+
+/// What the app's game logic observed since the last print.
+#[derive(Resource, Default)]
+pub struct EvLog(pub Vec<String>);
+
+fn ent_str(e: Entity) -> String {
+    format!("b{}", e.to_bits())
+}
+
+fn log_events(app: &mut App) {
+    app.init_resource::<EvLog>();
+    // events sent towards clients, as the receiving (or local) game logic sees them
+    app.add_systems(
+        Update,
+        (
+            |mut r: EventReader<SeOrd>, mut l: ResMut<EvLog>, t: Option<Res<ServerUpdateTick>>| {
+                for e in r.read() { l.0.push(format!("ord:{}:u{}", e.0, t.as_ref().map(|t| t.get()).unwrap_or(0))); }
+            },
+            |mut r: EventReader<SeMap>, mut l: ResMut<EvLog>, t: Option<Res<ServerUpdateTick>>| {
+                for e in r.read() { l.0.push(format!("map:{}:{}:u{}", e.0, ent_str(e.1), t.as_ref().map(|t| t.get()).unwrap_or(0))); }
+            },
+            |mut r: EventReader<SeInd>, mut l: ResMut<EvLog>| {
+                for e in r.read() { l.0.push(format!("ind:{}", e.0)); }
+            },
+            |mut r: EventReader<SeUnrel>, mut l: ResMut<EvLog>, t: Option<Res<ServerUpdateTick>>| {
+                for e in r.read() { l.0.push(format!("unrel:{}:u{}", e.0, t.as_ref().map(|t| t.get()).unwrap_or(0))); }
+            },
+            // events sent towards the server, as server-side logic sees them
+            |mut r: EventReader<FromClient<CeOrd>>, mut l: ResMut<EvLog>| {
+                for e in r.read() { l.0.push(format!("cord:{}:from{}", e.event.0, ent_str(e.client))); }
+            },
+            |mut r: EventReader<FromClient<CeMap>>, mut l: ResMut<EvLog>| {
+                for e in r.read() { l.0.push(format!("cmap:{}:{}:from{}", e.event.0, ent_str(e.event.1), ent_str(e.client))); }
+            },
+        ),
+    );
+    app.add_observer(|tr: Trigger<StOrd>, mut l: ResMut<EvLog>, t: Option<Res<ServerUpdateTick>>| {
+        l.0.push(format!("trig:{}:{}:u{}", tr.event().0, ent_str(tr.target()), t.as_ref().map(|t| t.get()).unwrap_or(0)));
+    });
+    app.add_observer(|tr: Trigger<FromClient<CtOrd>>, mut l: ResMut<EvLog>| {
+        l.0.push(format!("ctrig:{}:{}:from{}", tr.event().event.0, ent_str(tr.target()), ent_str(tr.event().client)));
+    });
+}
+
 #[derive(Clone)]
 pub struct Cfg {
+    pub events: bool,
+    pub dedicated: bool,
     pub whitelist: bool,
     pub clients: usize,
     pub track: bool,
@@ -66,12 +131,14 @@ pub struct Cfg {
 impl Cfg {
     fn header(&self, id: u64) -> String {
         format!(
-            "case {id} sys policy={} clients={} track={} sync={} auth={}",
+            "case {id} sys policy={} clients={} track={} sync={} auth={} events={} dedicated={}",
             if self.whitelist { "white" } else { "black" },
             self.clients,
             self.track as u8,
             self.sync as u8,
-            self.auth
+            self.auth,
+            self.events as u8,
+            self.dedicated as u8
         )
     }
     fn parse(line: &str) -> Cfg {
@@ -81,6 +148,8 @@ impl Cfg {
                 .unwrap_or_default()
         };
         Cfg {
+            events: get("events") == "1",
+            dedicated: get("dedicated") == "1",
             whitelist: get("policy") == "white",
             clients: get("clients").parse().unwrap_or(1),
             track: get("track") == "1",
@@ -122,17 +191,18 @@ fn auth_method(cfg: &Cfg) -> AuthMethod {
     }
 }
 
-fn common(app: &mut App, cfg: &Cfg) {
-    app.add_plugins((
-        MinimalPlugins,
-        RepliconPlugins
-            .set(ServerPlugin {
-                tick_policy: TickPolicy::Manual,
-                visibility_policy: if cfg.whitelist { VisibilityPolicy::Whitelist } else { VisibilityPolicy::Blacklist },
-                mutations_timeout: Duration::from_millis(400),
-            })
-            .set(RepliconSharedPlugin { auth_method: auth_method(cfg) }),
-    ));
+fn common(app: &mut App, cfg: &Cfg, is_server: bool) {
+    let group = RepliconPlugins
+        .build()
+        .set(ServerPlugin {
+            tick_policy: TickPolicy::Manual,
+            visibility_policy: if cfg.whitelist { VisibilityPolicy::Whitelist } else { VisibilityPolicy::Blacklist },
+            mutations_timeout: Duration::from_millis(400),
+        })
+        .set(RepliconSharedPlugin { auth_method: auth_method(cfg) });
+    // a dedicated server is built without the client-side plugins
+    let group = if is_server && cfg.dedicated { group.disable::<ClientPlugin>().disable::<ClientEventPlugin>() } else { group };
+    app.add_plugins((MinimalPlugins, group));
     app.insert_resource(TimeUpdateStrategy::ManualDuration(Duration::from_millis(10)));
     if cfg.track {
         use bevy_replicon::shared::replication::track_mutate_messages::TrackAppExt;
@@ -147,12 +217,24 @@ fn common(app: &mut App, cfg: &Cfg) {
         .replicate_periodic::<P>(PERIOD)
         .replicate::<R>()
         .replicate::<L>();
+    if cfg.events {
+        app.add_server_event::<SeOrd>(Channel::Ordered)
+            .add_mapped_server_event::<SeMap>(Channel::Ordered)
+            .add_server_event::<SeInd>(Channel::Ordered)
+            .make_event_independent::<SeInd>()
+            .add_server_trigger::<StOrd>(Channel::Ordered)
+            .add_server_event::<SeUnrel>(Channel::Unreliable)
+            .add_client_event::<CeOrd>(Channel::Ordered)
+            .add_mapped_client_event::<CeMap>(Channel::Ordered)
+            .add_client_trigger::<CtOrd>(Channel::Ordered);
+        log_events(app);
+    }
 }
 
 impl Sys {
     pub fn new(cfg: Cfg) -> Sys {
         let mut server = App::new();
-        common(&mut server, &cfg);
+        common(&mut server, &cfg, true);
         server.init_resource::<ReplRan>().add_systems(
             PostUpdate,
             (|mut r: ResMut<ReplRan>| r.0 = true)
@@ -168,7 +250,7 @@ impl Sys {
         let mut clients = Vec::new();
         for _ in 0..cfg.clients {
             let mut app = App::new();
-            common(&mut app, &cfg);
+            common(&mut app, &cfg, false);
             app.finish();
             clients.push(Cli {
                 app,
@@ -487,8 +569,110 @@ impl Sys {
                 writeln!(out, "= ok").unwrap();
             }
             "flushed" | "flushing" => writeln!(out, "= ok").unwrap(),
+            "sev" if self.cfg.events => {
+                // sev <kind> <id> <mode> [e]
+                let id: u32 = t[2].parse().unwrap();
+                let mode = match t[3] {
+                    "b" => Some(SendMode::Broadcast),
+                    "ds" => Some(SendMode::Direct(SERVER)),
+                    "xs" => Some(SendMode::BroadcastExcept(SERVER)),
+                    m => {
+                        let c: usize = m[1..].parse().unwrap();
+                        self.clients.get(c).and_then(|c| c.server_side).map(|ce| {
+                            if m.starts_with('x') { SendMode::BroadcastExcept(ce) } else { SendMode::Direct(ce) }
+                        })
+                    }
+                };
+                let target = t.get(4).and_then(|x| x.parse::<usize>().ok()).and_then(|i| self.ent(i));
+                match (mode, t[1]) {
+                    (Some(mode), "ord") => { self.server.world_mut().send_event(ToClients { mode, event: SeOrd(id) }); writeln!(out, "= ok").unwrap(); }
+                    (Some(mode), "ind") => { self.server.world_mut().send_event(ToClients { mode, event: SeInd(id) }); writeln!(out, "= ok").unwrap(); }
+                    (Some(mode), "unrel") => { self.server.world_mut().send_event(ToClients { mode, event: SeUnrel(id) }); writeln!(out, "= ok").unwrap(); }
+                    (Some(mode), "map") if target.is_some() => {
+                        self.server.world_mut().send_event(ToClients { mode, event: SeMap(id, target.unwrap()) });
+                        writeln!(out, "= ok").unwrap();
+                    }
+                    (Some(mode), "trig") if target.is_some() => {
+                        self.server.world_mut().server_trigger_targets(ToClients { mode, event: StOrd(id) }, target.unwrap());
+                        writeln!(out, "= ok").unwrap();
+                    }
+                    _ => writeln!(out, "= skip").unwrap(),
+                }
+            }
+            "cev" if self.cfg.events => {
+                // cev <client|s> <kind> <id> [e]
+                let id: u32 = t[3].parse().unwrap();
+                let e_idx = t.get(4).and_then(|x| x.parse::<usize>().ok());
+                if t[1] == "s" {
+                    let target = e_idx.and_then(|i| self.ent(i));
+                    let w = self.server.world_mut();
+                    match (t[2], target) {
+                        ("ord", _) => { w.send_event(CeOrd(id)); writeln!(out, "= ok").unwrap(); }
+                        ("map", Some(tg)) => { w.send_event(CeMap(id, tg)); writeln!(out, "= ok").unwrap(); }
+                        ("trig", Some(tg)) => { w.client_trigger_targets(CtOrd(id), tg); writeln!(out, "= ok").unwrap(); }
+                        _ => writeln!(out, "= skip").unwrap(),
+                    }
+                } else {
+                    let c: usize = t[1].parse().unwrap();
+                    let se = e_idx.and_then(|i| self.ents.get(i).copied().flatten());
+                    let cl = &mut self.clients[c];
+                    if cl.panicked { writeln!(out, "= skip").unwrap(); return; }
+                    let mapped = se.and_then(|se| cl.app.world().resource::<ServerEntityMap>().to_client().get(&se).copied());
+                    let w = cl.app.world_mut();
+                    match (t[2], e_idx) {
+                        ("ord", _) => { w.send_event(CeOrd(id)); writeln!(out, "= ok").unwrap(); }
+                        ("map", Some(_)) => {
+                            // an entity the server does not know makes the event unsendable
+                            let tg = mapped.unwrap_or_else(|| w.spawn(N(9)).id());
+                            w.send_event(CeMap(id, tg));
+                            writeln!(out, "= ok mapped={}", mapped.is_some() as u8).unwrap();
+                        }
+                        ("trig", Some(_)) => {
+                            let tg = mapped.unwrap_or_else(|| w.spawn(N(9)).id());
+                            w.client_trigger_targets(CtOrd(id), tg);
+                            writeln!(out, "= ok mapped={}", mapped.is_some() as u8).unwrap();
+                        }
+                        _ => writeln!(out, "= skip").unwrap(),
+                    }
+                }
+            }
             _ => writeln!(out, "= skip unknown").unwrap(),
         }
+    }
+
+    /// Prints and clears an app's event log; entity bits are translated to harness indices.
+    fn print_evlog(&mut self, who: Option<usize>, out: &mut dyn Write) {
+        if !self.cfg.events { return; }
+        let entries: Vec<String> = match who {
+            None => std::mem::take(&mut self.server.world_mut().resource_mut::<EvLog>().0),
+            Some(c) => std::mem::take(&mut self.clients[c].app.world_mut().resource_mut::<EvLog>().0),
+        };
+        let to_server: Vec<(Entity, Entity)> = match who {
+            Some(c) => self.clients[c].app.world().resource::<ServerEntityMap>().to_server().iter().map(|(c, s)| (*c, *s)).collect(),
+            None => Vec::new(),
+        };
+        let tr: Vec<String> = entries
+            .iter()
+            .map(|e| {
+                e.split(':')
+                    .map(|tok| {
+                        let (pre, bits) = if let Some(b) = tok.strip_prefix("fromb") { ("from", b) } else if let Some(b) = tok.strip_prefix('b') { ("@", b) } else { return tok.to_string() };
+                        let Ok(bits) = bits.parse::<u64>() else { return tok.to_string() };
+                        let ent = Entity::from_bits(bits);
+                        if ent == Entity::PLACEHOLDER { return format!("{pre}S"); }
+                        if pre == "from" {
+                            return match self.clients.iter().position(|c| c.server_side == Some(ent)) { Some(c) => format!("from{c}"), None => "from?".to_string() };
+                        }
+                        // an entity reference: on a client translate through its entity map
+                        let server_ent = match who { Some(_) => to_server.iter().find(|(c, _)| *c == ent).map(|(_, s)| *s), None => Some(ent) };
+                        match server_ent.and_then(|s| self.idx_of(s)) { Some(i) => format!("@{i}"), None => "@?".to_string() }
+                    })
+                    .collect::<Vec<_>>()
+                    .join(":")
+            })
+            .collect();
+        let name = match who { None => "s".to_string(), Some(c) => format!("c{c}") };
+        writeln!(out, "= evlog {name} {}", if tr.is_empty() { "-".to_string() } else { tr.join(",") }).unwrap();
     }
 
     fn is_ancestor(&self, a: Entity, mut b: Entity) -> bool {
@@ -561,6 +745,7 @@ impl Sys {
                 None => writeln!(out, "= sent c=? ch={ch} hex={}", hex(&b)).unwrap(),
             }
         }
+        self.print_evlog(None, out);
         self.print_server(out);
     }
 
@@ -630,6 +815,7 @@ impl Sys {
             writeln!(out, "= csent c={c} ch={ch} hex={}", hex(&b)).unwrap();
             if connected { self.clients[c].c2s[ch].push_back(b); }
         }
+        self.print_evlog(Some(c), out);
         // client view
         let upd = self.clients[c].app.world().resource::<ServerUpdateTick>().get();
         let map: Vec<(Entity, Entity)> = self.clients[c].app.world().resource::<ServerEntityMap>().to_client().iter().map(|(s, c)| (*s, *c)).collect();
@@ -706,10 +892,21 @@ pub fn generate(opts: &Opts, profile: &str, out: &mut Out) {
         let mut crng = rng.fork();
         if id % nshards != shard { continue; }
         let cfg = match profile {
-            "sys_vis" => Cfg { whitelist: crng.chance(1, 2), clients: crng.range(1, 2) as usize, track: false, sync: false, auth: "none".into() },
-            "sys_split" => Cfg { whitelist: false, clients: 1, track: crng.chance(1, 3), sync: crng.chance(2, 3), auth: "none".into() },
-            "sys_auth" => Cfg { whitelist: crng.chance(1, 3), clients: crng.range(1, 3) as usize, track: false, sync: false, auth: (*crng.pick(&["check", "custom", "none"])).into() },
+            "sys_vis" => Cfg { events: false, dedicated: false, whitelist: crng.chance(1, 2), clients: crng.range(1, 2) as usize, track: false, sync: false, auth: "none".into() },
+            "sys_split" => Cfg { events: false, dedicated: false, whitelist: false, clients: 1, track: crng.chance(1, 3), sync: crng.chance(2, 3), auth: "none".into() },
+            "sys_auth" => Cfg { events: false, dedicated: false, whitelist: crng.chance(1, 3), clients: crng.range(1, 3) as usize, track: false, sync: false, auth: (*crng.pick(&["check", "custom", "none"])).into() },
+            "sys_evt" => Cfg {
+                events: true,
+                dedicated: crng.chance(1, 4),
+                whitelist: crng.chance(1, 5),
+                clients: crng.range(1, 3) as usize,
+                track: false,
+                sync: false,
+                auth: (*crng.pick(&["none", "none", "none", "custom"])).into(),
+            },
             _ => Cfg {
+                events: false,
+                dedicated: false,
                 whitelist: crng.chance(1, 4),
                 clients: crng.range(1, 3) as usize,
                 track: crng.chance(1, 5),
@@ -777,7 +974,38 @@ impl Gen {
         self.step(s);
     }
 
+    fn event_op(&mut self) {
+        let id = self.v();
+        let nclients = self.sys.clients.len() as u64;
+        if self.rng.chance(3, 5) {
+            let kind = *self.rng.pick(&["ord", "ord", "map", "ind", "trig", "unrel"]);
+            let mode = match self.rng.below(6) {
+                0 | 1 | 2 => "b".to_string(),
+                3 => format!("x{}", self.rng.below(nclients)),
+                4 => format!("d{}", self.rng.below(nclients)),
+                _ => (*self.rng.pick(&["ds", "xs"])).to_string(),
+            };
+            match (kind, self.live()) {
+                ("map" | "trig", Some(e)) => self.step(format!("sev {kind} {id} {mode} {e}")),
+                ("map" | "trig", None) => {}
+                _ => self.step(format!("sev {kind} {id} {mode}")),
+            }
+        } else {
+            let who = if self.rng.chance(1, 4) { "s".to_string() } else { self.rng.below(nclients).to_string() };
+            let kind = *self.rng.pick(&["ord", "ord", "map", "trig"]);
+            match (kind, self.live()) {
+                ("map" | "trig", Some(e)) => self.step(format!("cev {who} {kind} {id} {e}")),
+                ("map" | "trig", None) => {}
+                _ => self.step(format!("cev {who} {kind} {id}")),
+            }
+        }
+    }
+
     fn world_op(&mut self, profile: &str) {
+        if profile == "sys_evt" && self.rng.chance(1, 2) {
+            self.event_op();
+            return;
+        }
         let n_live = self.sys.alive.iter().filter(|a| **a).count();
         let r = self.rng.below(100);
         if n_live == 0 || (r < 14 && n_live < 8) {
@@ -860,6 +1088,11 @@ impl Gen {
 
     fn run(&mut self, profile: &str) {
         let nclients = self.sys.clients.len();
+        if profile == "sys_evt" && self.rng.chance(1, 3) {
+            // singleplayer phase: events before the server is started
+            for _ in 0..self.rng.range(1, 4) { self.event_op(); }
+            self.step("sframe tick=0".into());
+        }
         self.step("start".into());
         // some content before anybody connects
         for _ in 0..self.rng.below(3) { self.spawn(profile); }
@@ -905,7 +1138,7 @@ impl Gen {
                     self.step(format!("cframe {c}"));
                 }
                 85..=88 => self.network(5),
-                89..=90 if profile == "sys" || (profile == "sys_auth" && self.sys.cfg.auth != "check") => {
+                89..=90 if profile == "sys" || profile == "sys_evt" || (profile == "sys_auth" && self.sys.cfg.auth != "check") => {
                     let c = self.rng.below(nclients as u64);
                     if self.sys.clients[c as usize].server_side.is_some() {
                         self.step(format!("disconnect {c}"));
@@ -915,7 +1148,7 @@ impl Gen {
                         self.step(format!("connect {c}"));
                     }
                 }
-                91 if profile == "sys" => {
+                91 if profile == "sys" || profile == "sys_evt" => {
                     self.step("stop".into());
                     self.step("sframe tick=0".into());
                     for c in 0..nclients { self.step(format!("cframe {c}")); }
